@@ -189,6 +189,54 @@ func mkHandleInstance(sc *Scenario) (*explorer.Instance, *runState) {
 		in.Threads = append(in.Threads, func() {
 			cn := sc.Conns[ti]
 			conn := rs.conns[cn]
+			await := func(r *opRec, a []string) bool {
+				for {
+					w.Point(rt.Op{Kind: rt.OpIO, Obj: conn, Enabled: conn.ReplyReady})
+					raw, v, st := conn.TryTakeReply()
+					if st == "ok" && isPush(v) {
+						hs.pushes = append(hs.pushes, pushRec{cn, string(v.Arr[1].S), string(v.Arr[2].S)})
+						continue
+					}
+					if st != "ok" {
+						hs.bad = append(hs.bad, fmt.Sprintf("connection %s, waiting for the reply to %q: %s %q", cn, a, st, raw))
+						r.Ret = w.Steps
+						return false
+					}
+					r.Reply = raw
+					break
+				}
+				r.Ret, r.Done = w.Steps, true
+				return true
+			}
+			if sc.Pipeline {
+				// the whole program is written at once; the replies are awaited one by one.  A connection's
+				// commands are executed in order, so for the oracle command i+1 is invoked when the reply
+				// to command i has arrived (or when the bytes were written, whichever is later)
+				var recs []*opRec
+				var stream []byte
+				for _, c := range prog {
+					a := subst(c)
+					recs = append(recs, &opRec{Thread: ti, Args: a})
+					stream = append(stream, model.EncodeCommand(h.B(a...))...)
+				}
+				yield()
+				sent := w.Steps
+				for _, r := range recs {
+					r.Call = sent
+					rs.ops = append(rs.ops, r)
+				}
+				conn.Send(stream)
+				for i, r := range recs {
+					if i > 0 && recs[i-1].Ret > r.Call {
+						r.Call = recs[i-1].Ret
+					}
+					if !await(r, r.Args) {
+						return
+					}
+				}
+				yield()
+				return
+			}
 			for _, c := range prog {
 				a := subst(c)
 				if a[0] == "@eof" {
@@ -201,22 +249,9 @@ func mkHandleInstance(sc *Scenario) (*explorer.Instance, *runState) {
 				yield()
 				r.Call = w.Steps
 				conn.Send(model.EncodeCommand(h.B(a...)))
-				for {
-					w.Point(rt.Op{Kind: rt.OpIO, Obj: conn, Enabled: conn.ReplyReady})
-					raw, v, st := conn.TryTakeReply()
-					if st == "ok" && isPush(v) {
-						hs.pushes = append(hs.pushes, pushRec{cn, string(v.Arr[1].S), string(v.Arr[2].S)})
-						continue
-					}
-					if st != "ok" {
-						hs.bad = append(hs.bad, fmt.Sprintf("connection %s, waiting for the reply to %q: %s %q", cn, a, st, raw))
-						r.Ret = w.Steps
-						return
-					}
-					r.Reply = raw
-					break
+				if !await(r, a) {
+					return
 				}
-				r.Ret, r.Done = w.Steps, true
 				yield()
 			}
 		})
@@ -443,6 +478,17 @@ func handleScenarios() []*Scenario {
 			th(c("SUBSCRIBE", "ch"), c("LRANGE", "@k0", "0", "-1")), th(c("PUBLISH", "ch", "m1")))
 		add(p, "h:"+p+":subscriber-ping-vs-two-publishers", 1, nil, []string{"c1", "c2", "c3"},
 			th(c("SUBSCRIBE", "ch1", "ch2"), c("PING"), c("GET", "@k0")), th(c("PUBLISH", "ch1", "m1")), th(c("PUBLISH", "ch2", "m2")))
+	}
+	// pipelines: a connection's commands arrive in one chunk; the parser goroutine runs ahead of the
+	// handler (what it has parsed must stay intact while the handler still executes earlier commands)
+	pipe := func(prop, id string, conns []string, threads ...[][]string) {
+		s = append(s, &Scenario{ID: id, Prop: prop, Threads: threads, Conns: conns, ViaHandle: true, DBs: 1, Atomic: true, Pipeline: true})
+	}
+	for _, p := range []string{"C02", "C03"} {
+		pipe(p, "h:"+p+":pipelines-two-connections", []string{"c1", "c2"},
+			th(c("SET", "@k0", "aaaa"), c("APPEND", "@k0", "bb"), c("GET", "@k0")), th(c("SET", "@k0", "zzzzzz"), c("GET", "@k0")))
+		pipe(p, "h:"+p+":pipeline-one-connection", []string{"c1"},
+			th(c("SET", "@k0", "aaaa"), c("SET", "@k1", "bbbbbbbb"), c("MGET", "@k0", "@k1"), c("RPUSH", "@k2", "x", "yy", "zzz"), c("LRANGE", "@k2", "0", "-1")))
 	}
 	return s
 }
